@@ -137,6 +137,17 @@ def cases(tier, seed, focus=None):
             c["mat"].update(kind="offset", m=rk.choice([26, 27, 30]), n=rk.choice([5, 7, 8]), ratio=1e4, scale=1.0)
             c["perms"] = [rk.sample(range(c["mat"]["m"]), c["mat"]["m"]) for _ in range(6)]
         out.append(c)
+    # directed: TrimmedMean with huge, partly cancelling outlier rows (exactly what it is meant to trim): the result may not depend
+    # on where they sit
+    rt = random.Random(10020000 + seed)
+    for j in range(10 if tier == "quick" else 80):
+        b = rt.choice([1, 1, 2])
+        m = rt.randint(2 * b + 1, 2 * b + 4)
+        dtype = rt.choice(["float32", "float64"])
+        out.append({"agg": {"name": "TrimmedMean", "b": b},
+                    "mat": {"kind": "outliers", "m": m, "n": rt.randint(1, 5), "seed": rt.randrange(10**6), "dtype": dtype, "b": b,
+                            "big": 10.0 ** rt.uniform(17, 30) if dtype == "float32" else 10.0 ** rt.uniform(20, 200), "scale": 1.0},
+                    "perms": "all" if m <= 5 else [rt.sample(range(m), m) for _ in range(24)], "seed": rt.randrange(10**6)})
     return out
 
 
@@ -188,6 +199,9 @@ def run_case(case):
                         sig, rows_differ, "exception", small(r), perm=perm)
         rp64 = to64(rp)
         tol = _deg0_tolerance(spec, agg, J, PJ, 1.0, False, seed, r64, rp64)
+        if name == "TrimmedMean" and mat.get("kind") == "outliers":
+            # the outliers are trimmed: what is averaged are the kept entries, whose magnitude (not the outliers') bounds the rounding
+            tol = 64.0 * m * e * (float(np.abs(r64).max(initial=0.0)) + float(np.abs(rp64[np.isfinite(rp64)]).max(initial=0.0)) + 1.0)
         if tol is None:
             return {"ok": True, "sig": sig, "nontrivial": False, "note": "outside the clause (tie / ambiguous rank)"}
         d = float(np.abs(rp64 - r64).max()) if n else 0.0
